@@ -159,24 +159,32 @@ def pushOrSwap (marks : List Nat) (clock : Nat) (vs : List Version) (v : Bytes) 
     else ((clock + 1, v) :: vs, clock + 1)
   | [] => ([(clock + 1, v)], clock + 1)
 
-/-- ART.Set / RBT.Set: `v = none` updates flags only -/
+/-- the flags after a write: every value write first drops NeedConstraintCheckInPrewrite -/
+def writeFlags (flags : Nat) (v : Option Bytes) (ops : List Nat) : Nat :=
+  match v with
+  | some _ => KeyFlags.applyOps flags (KeyFlags.delNeedConstraintCheck :: ops)
+  | none => KeyFlags.applyOps flags ops
+
+/-- the state change of a write that passed the key / entry limits; `v = none` updates flags only -/
+def writeCore (s : Spec) (k : Bytes) (v : Option Bytes) (ops : List Nat) : Spec :=
+  let c := (s.find k).getD (fresh k)
+  let flags' := writeFlags c.flags v ops
+  let dirty' := s.dirty || s.marks.isEmpty || KeyFlags.andPersistent flags' != 0
+  match v with
+  | none =>
+    { s with cells := upsert s.cells k (fun c => { c with present := true, flags := flags' }), dirty := dirty' }
+  | some x =>
+    let r := pushOrSwap s.marks s.clock c.versions x
+    { s with cells := upsert s.cells k (fun c => { c with present := true, flags := flags', versions := r.1 }),
+             clock := r.2, dirty := dirty' }
+
+/-- ART.Set / RBT.Set: limits, then the write; the buffer limit is checked AFTER the write has been applied -/
 def write (s : Spec) (k : Bytes) (v : Option Bytes) (ops : List Nat) : Spec × Out :=
   if k.length > Gen.MemLimits.maxKeyLen then (s, .err .keyTooLarge)
   else if (match v with | some x => decide (k.length + x.length > s.entryLimit) | none => false) then (s, .err .entryTooLarge)
   else
-    let c := (s.find k).getD (fresh k)
-    let flags' := match v with
-      | some _ => KeyFlags.applyOps c.flags (KeyFlags.delNeedConstraintCheck :: ops)
-      | none => KeyFlags.applyOps c.flags ops
-    let dirty' := s.dirty || s.marks.isEmpty || KeyFlags.andPersistent flags' != 0
-    match v with
-    | none =>
-      ({ s with cells := upsert s.cells k (fun c => { c with present := true, flags := flags' }), dirty := dirty' }, .ok)
-    | some x =>
-      let (vs', clock') := pushOrSwap s.marks s.clock c.versions x
-      let s' := { s with cells := upsert s.cells k (fun c => { c with present := true, flags := flags', versions := vs' }),
-                         clock := clock', dirty := dirty' }
-      if s'.size > (s.bufLimit : Int) then (s', .err .txnTooLarge) else (s', .ok)
+    let s' := s.writeCore k v ops
+    if v.isSome && decide (s'.size > (s.bufLimit : Int)) then (s', .err .txnTooLarge) else (s', .ok)
 
 /-- the key forgets its newest version; when the last one goes only persistent flags keep the key alive -/
 def flagsRule (c : Cell) : Cell :=
